@@ -110,12 +110,14 @@ for pid, why in (
     ('C17', 'quantifies over structural mutations of a catalog only SQLite can produce, judged by ~9000 lines of std::set<std::string> expectation lists; symbolic catalogs through that code are beyond reach, enumerating concrete mutations would be sampling, not this family (DESIGN.md §4)')):
     na(pid, why)
 chk('C07', 'model_checking',
-    'Schema 2.x: symbolic execution of the real database_impl / crate_impl / playlist_table / sqlite_modern_cpp over a relational sqlite3 model whose tables, UNIQUE constraints and triggers are parsed on every run from the DDL in '
+    'Both generations (2.x: database_impl / crate_impl / playlist_table; 1.x: engine_database_impl / engine_crate_impl incl. the three redundant encodings and, from 1.9.1, the List views with INSTEAD OF triggers): symbolic execution '
+    'through sqlite_modern_cpp over a relational sqlite3 model whose tables, views, UNIQUE constraints and triggers are parsed on every run from the DDL in '
     "/repo's schema creator. History = concrete prefix (forest shapes incl. removals and moves) + 1-3 operations with symbolic kind, operands and names (create root/sub crate [after], rename, re-parent, remove). After every operation "
     'crates(), root_crates(), parent(), name(), children(), descendants(), crate_by_id, lookups by parent and name and is_valid() of every handle are compared with a reference forest; invalid names, cycles, removed operands and duplicate '
     'sibling names must be rejected without effect, legal operations must succeed.',
     'Trusted: clang lowering, lsx, lsx/models_rel.py (SQL subset interpreter; validated on every run against the real SQLite: random statement sequences + native replay of sampled paths and of every counterexample through the library built '
-    'from the working tree), the reference forest in harness/h_crates.h, z3. Schema 1.x is outside (views with joins, INSERT..SELECT, INSTEAD OF triggers are beyond the SQL subset); histories longer than the bound are outside.',
+    'from the working tree), the reference forest in harness/h_crates.h (1.x: no sibling order, duplicate sibling names legal, create_*_after ignores its position), z3. Histories longer than the bound are outside. '
+    'One listed known finding (1.x hands a removed crate\'s id out again).',
     'bounded symbolic execution of LLVM IR (lsx, z3) over a relational sqlite3 model parsed from the DDL + native replay against the real SQLite', 'DESIGN.md §3 C07')
 chk('C09', 'model_checking',
     'Schema 2.x: the same runs as C07 judged by the order assertions (root_crates() / children() sequences: a crate created after a sibling is immediately after it, a created or moved crate appears exactly once among its new siblings, '
@@ -124,12 +126,12 @@ chk('C09', 'model_checking',
     'Trusted: as C07. The raw playlist_entity_table API (rows added with a caller-supplied successor) is outside: only the public crate API drives the entity chain.',
     'bounded symbolic execution of LLVM IR (lsx, z3) over a relational sqlite3 model parsed from the DDL + native replay against the real SQLite', 'DESIGN.md §3 C09')
 chk('C08', 'model_checking',
-    'Schema 2.x: symbolic execution of crate_impl / playlist_entity_table / track_table / database_impl over the relational sqlite3 model. History = concrete prefix that makes track ids, crate ids and membership-row ids diverge '
+    'Both generations (2.x: crate_impl / playlist_entity_table / track_table / database_impl; 1.x: engine_crate_impl / engine_database_impl / engine_track_impl::containing_crates): symbolic execution over the relational sqlite3 model. History = concrete prefix that makes track ids, crate ids and membership-row ids diverge '
     '+ 1-3 operations with symbolic kind and operands (add, remove, clear, remove_track, remove_crate, create track / crate / sub-crate, also on removed operands). After every operation crate.tracks() of every crate is compared with the '
     'reference relation (no duplicates, no removed tracks, other pairs untouched); containing_crates() is compared where the generation implements it.',
-    'Trusted: as C07 (reference relation in harness/h_members.h). Schema 1.x is outside (same reason as C07); tracks of other databases in a playlist are outside.',
+    'Trusted: as C07 (reference relation in harness/h_members.h). Tracks of other databases in a playlist are outside. Two listed known findings (1.x reuses the id of a removed crate / track).',
     'bounded symbolic execution of LLVM IR (lsx, z3) over a relational sqlite3 model parsed from the DDL + native replay against the real SQLite', 'DESIGN.md §3 C08')
-na('C11', 'judged by an independent reader of the stored SQLite file (integrity / foreign-key checks, verify(), triple crate encoding): facts about SQLite executing SQL; the sub-claims that reduce to other obligations are covered there (blob decodability: C03; derived file name/extension: C06) and the 2.x chain invariants are what C09 observes through the public listings; the 1.x triple crate encoding is outside the SQL subset of the relational model')
+na('C11', 'judged by an independent reader of the stored SQLite file (integrity / foreign-key checks, verify(), triple crate encoding): facts about SQLite executing SQL; the sub-claims that reduce to other obligations are covered there (blob decodability: C03; derived file name/extension: C06) and the 2.x chain invariants are what C09 observes through the public listings; the 1.x triple crate encoding is exercised only through the public queries of C07 (children via CrateParentList, descendants via CrateHierarchy, lookups via titles), not by an independent reader of the raw tables')
 PENDING = []
 
 def main():
